@@ -44,8 +44,10 @@
                    and not self.sent_continue:` first statement of send_continue;
                    the worker goes to [WSend] STILL HOLDING requests_lock;
                    in every other case the lock is released in the same step
-     CWSend i      the rest of send_continue on the worker (as CIOSend), then the
-                   release of requests_lock.  What follows in service()
+     CWSend i      the rest of send_continue on the worker (as CIOSend; since fix
+                   da3bf3a the worker calls send_continue(do_close=False): its flush
+                   never tears the connection down -- flushing is not part of this
+                   model either way), then the release of requests_lock.  What follows in service()
                    (`if self.connected: pull_trigger()`, last_activity) touches
                    nothing of this model: the worker leaves the model here.
    Environment:
@@ -131,7 +133,7 @@
                    break
                data = data[n:]
        return True
-   def send_continue(self):
+   def send_continue(self, do_close=True):
        self.request.expect_continue = False
        outbuf_payload = b'HTTP/1.1 100 Continue\r\n\r\n'
        num_bytes = len(outbuf_payload)
@@ -140,7 +142,7 @@
            self.current_outbuf_count += num_bytes
            self.total_outbufs_len += num_bytes
            self.sent_continue = True
-           self._flush_some()
+           self._flush_some(do_close=do_close)
    def service(self):
        request = self.requests[0]
        ...
@@ -161,7 +163,7 @@
                if self.connected and self.requests:
                    self.server.add_task(self)
                elif self.connected and self.request is not None and self.request.expect_continue and self.request.headers_finished and (not self.sent_continue):
-                   self.send_continue()
+                   self.send_continue(do_close=False)
        if self.connected:
            self.server.pull_trigger()
        self.last_activity = time.time()
